@@ -281,6 +281,8 @@ func parseVUI(reader *bits.EBSPReader, parseVUIBeyondAspectRatio bool) *VUIParam
 		if aspectRatioIDC == ExtendedSAR {
 			vui.SampleAspectRatioWidth = reader.Read(16)
 			vui.SampleAspectRatioHeight = reader.Read(16)
+		} else if aspectRatioIDC == 0 {
+			// Unspecified sample aspect ratio (Table E-1). Leave width and height as 0
 		} else {
 			vui.SampleAspectRatioWidth, vui.SampleAspectRatioHeight, err = GetSARfromIDC(aspectRatioIDC)
 			if err != nil {
